@@ -34,6 +34,16 @@ pub mod service_id;
 #[cfg(feature = "statistics")]
 pub mod statistics;
 
+/// Counters for external runtime monitors; compiled only with feature `verif-hooks`.
+#[cfg(feature = "verif-hooks")]
+pub mod verif_hooks {
+    use std::sync::atomic::AtomicU64;
+    /// XML events pulled from the underlying XML reader by the FIBEX event reader
+    pub static FIBEX_XML_EVENTS: AtomicU64 = AtomicU64::new(0);
+    /// number of times the FIBEX event reader handed `Event::Eof` to a caller
+    pub static FIBEX_EOF_RETURNS: AtomicU64 = AtomicU64::new(0);
+}
+
 #[cfg(test)]
 pub mod proptest_strategies;
 #[cfg(test)]
